@@ -83,7 +83,8 @@ class Driver:
         e = dict(os.environ)
         if env:
             e.update(env)
-        self.p = subprocess.Popen([exe], stdin=subprocess.PIPE, stdout=subprocess.PIPE, env=e, bufsize=0)
+        quiet = "asan" in os.path.basename(exe) and not os.environ.get("XDRV_KEEP_STDERR")
+        self.p = subprocess.Popen([exe], stdin=subprocess.PIPE, stdout=subprocess.PIPE, env=e, bufsize=0, stderr=subprocess.DEVNULL if quiet else None)
         self.lock = threading.Lock()
 
     def request(self, opcode, name, mode, n, cols, pool):
